@@ -48,6 +48,9 @@ func init() {
 	mutant(&Mutant{Name: "c09-bigint-through-number", Property: "C09", File: "js/util.go",
 		Old: "\tb, suffix = removeUnderscoresAndSuffix(b)\n\tif suffix {\n\t\treturn append(b, 'n')\n\t}\n\treturn minify.Number(b, prec)", New: "\tb, suffix = removeUnderscoresAndSuffix(b)\n\tb = minify.Number(b, prec)\n\tif suffix {\n\t\treturn append(b, 'n')\n\t}\n\treturn b",
 		Rule: "R09.3", Construct: "decimalNumber"})
+	mutant(&Mutant{Name: "c09-dot-after-number-shortcut", Property: "C09", File: "js/js.go",
+		Old: "\t\tif js.OpMember <= prec || optionalLeft {\n\t\t\tm.minifyExpr(expr.X, js.OpMember)", New: "\t\tif lit, ok := expr.X.(*js.LiteralExpr); ok && lit.TokenType == js.DecimalToken {\n\t\t\tm.write(lit.Data)\n\t\t\tm.write(dotBytes)\n\t\t\tm.write(expr.Y.Data)\n\t\t\tbreak\n\t\t}\n\t\tif js.OpMember <= prec || optionalLeft {\n\t\t\tm.minifyExpr(expr.X, js.OpMember)",
+		Rule: "R09.4", Construct: "property write"})
 	mutant(&Mutant{Name: "c09-throw-without-semicolon", Property: "C09", File: "js/js.go",
 		Old: "\t\tm.write(throwBytes)\n\t\tm.writeSpaceBeforeIdent()\n\t\tm.minifyExpr(stmt.Value, js.OpExpr)\n\t\tm.requireSemicolon()\n", New: "\t\tm.write(throwBytes)\n\t\tm.writeSpaceBeforeIdent()\n\t\tm.minifyExpr(stmt.Value, js.OpExpr)\n",
 		Rule: "R09.1", Construct: "case *js.ThrowStmt"})
@@ -382,4 +385,74 @@ func runC09(c *Ctx) {
 		c.R.Floor(rule, "class field printers", k, 1)
 	}
 	c.r019(pk, "R09.3")
+	c.r094(pk)
+}
+
+// R09.4: `1.a` is not a member access — a property written after a number needs the integer test.
+func (c *Ctx) r094(pk *packages.Package) {
+	const rule = "R09.4"
+	c.R.Rule(rule, "in the DotExpr case of jsMinifier.minifyExpr every write of the property name (m.write(expr.Y.Data)) is reached only through the optional-chaining branch (`?.`) or through the test that inspects the last byte written (m.prev) for a digit — the test that adds the second dot after an integer (`5..a`). A path that writes a number and the property with its own dot logic bypasses it: `(1.0).toString()` → `1.toString()`, `(1n).a` → `1n..a`, both syntax errors")
+	info := pk.TypesInfo
+	fd := c.fn(rule, pk, "jsMinifier.minifyExpr")
+	if fd == nil {
+		return
+	}
+	g := c.graph(pk, fd)
+	var caseTrue *flow.Node
+	for _, y := range g.Nodes {
+		if y.Kind == flow.KTrue && y.Of.Kind == flow.KTypeCase && str(y.Of.Expr) == "*js.DotExpr" {
+			caseTrue = y
+		}
+	}
+	if caseTrue == nil {
+		c.R.Unres(rule, "js.jsMinifier.minifyExpr/case *js.DotExpr", c.pos(fd), "case not found")
+		return
+	}
+	digitTest := func(y *flow.Node) bool {
+		if y.Kind != flow.KCond {
+			return false
+		}
+		s := str(y.Expr)
+		if !strings.Contains(s, "'0'") && !strings.Contains(s, "'9'") {
+			return false
+		}
+		// the compared byte comes from m.prev
+		ok := false
+		ast.Inspect(y.Expr, func(x ast.Node) bool {
+			if id, isId := x.(*ast.Ident); isId {
+				if d := c.singleDef(pk, id); d != nil && strings.Contains(str(d), ".prev[") {
+					ok = true
+				}
+			}
+			if e, isE := x.(ast.Expr); isE && strings.Contains(str(e), ".prev[") {
+				ok = true
+			}
+			return true
+		})
+		return ok
+	}
+	optional := func(y *flow.Node) bool {
+		return y.Kind == flow.KTrue && y.Of.Kind == flow.KCond && nospace(str(y.Of.Expr)) == "expr.Optional"
+	}
+	n := 0
+	for _, y := range g.Nodes {
+		a := y.Ast()
+		if a == nil || y.Kind != flow.KStmt || c.caseLabel(a) != "case *js.DotExpr" {
+			continue
+		}
+		writesProp := false
+		for _, call := range findCalls(info, a, false, jsWrite) {
+			if nospace(str(call.Args[0])) == "expr.Y.Data" {
+				writesProp = true
+			}
+		}
+		if !writesProp {
+			continue
+		}
+		n++
+		p := g.Path(flow.Search{From: []*flow.Node{caseTrue}, Goal: func(z *flow.Node) bool { return z == y }, Avoid: func(z *flow.Node) bool { return digitTest(z) || optional(z) }})
+		c.R.Check(p == nil, rule, fmt.Sprintf("js.jsMinifier.minifyExpr/case *js.DotExpr/property write#%d behind the trailing-digit test", n), c.pos(a), "only after the m.prev digit test (or `?.`)",
+			"the property name can be written without the test that separates it from a preceding integer: a numeric literal followed by `.name` is printed with the wrong number of dots (`1.toString()` / `1n..a`), which is not valid JavaScript: "+pathStr(c, g, p))
+	}
+	c.R.Floor(rule, "property writes in the DotExpr case", n, 1)
 }
